@@ -395,7 +395,7 @@ func init() {
 		Run: func(c *mc.Ctx) {
 			K := 5
 			if c.Tier == "thorough" {
-				K = 7
+				K = 6 // 6.7 M programs; 7 nodes would be 121 M
 			}
 			base := int64(0)
 			for m := 1; m <= K; m++ {
@@ -410,7 +410,7 @@ func init() {
 					if !c.Mine(idx) {
 						continue
 					}
-					if k&0x3FF == 0 && c.Expired() {
+					if c.Due(0x3FF) {
 						c.Note(fmt.Sprintf("deadline hit at %d nodes", m))
 						return
 					}
